@@ -13,7 +13,8 @@ enum OpKind { O_APPEND = 1, O_PREPEND = 2, O_INSERT = 3, O_REMOVE = 4, O_OWNS = 
 // Op fields: a = callback id (adds) / argument (invoke); b = slot of the handle used (remove/owns/insert-before);
 //            c = script of the added callback (0 none, 1 remove itself, 2 append a new callback) / stop count (forEachIf);
 //            d = event key
-enum { U_TASKS = 0, U_PRE = 1, U_OBJ = 2, U_EVENTS = 3, U_PRESCRIPT = 4 /* bit pairs per pre-populated callback */ };
+enum { U_TASKS = 0, U_PRE = 1, U_OBJ = 2, U_EVENTS = 3, U_PRESCRIPT = 4 /* bit pairs per pre-populated callback */,
+	U_WARP = 5 /* callback lists only: k + 1 = the generation counter is set k additions before its wrap before the tasks start (clock-jump fault) */ };
 enum { OBJ_LIST_MX = 0, OBJ_LIST_SPIN = 1, OBJ_DISP_MAP_MX = 2, OBJ_DISP_HASH_MX = 3, OBJ_DISP_MAP_SPIN = 4, OBJ_DISP_HASH_SPIN = 5, OBJ_KINDS = 6 };
 enum { MAXCB = 32, SCRIPT_CB_BASE = 16, T_FN = 1 };
 
@@ -38,7 +39,7 @@ struct Trav { int task, ev; long inv, ret; std::vector<int> visits; bool complet
 
 struct Counters
 {
-	uint64_t linChecked = 0, linOps = 0, linNodes = 0, travChecked = 0, travVisits = 0, overlapRuns = 0, removeRaces = 0, insertBeforeRemoved = 0,
+	uint64_t linChecked = 0, linOps = 0, linNodes = 0, travChecked = 0, travVisits = 0, overlapRuns = 0, warpedRuns = 0, removeRaces = 0, insertBeforeRemoved = 0,
 		travSteppedRemoved = 0, drainRemovals = 0, nestedOps = 0, linBudgetExhausted = 0, linSkippedTooLong = 0;
 	uint64_t perObj[OBJ_KINDS] = { 0, 0, 0, 0, 0, 0 };
 } counters;
@@ -64,6 +65,7 @@ struct ListObj
 	bool remove(int, const Handle & h) { return obj.remove(h); }
 	bool owns(int, const Handle & h) { return obj.ownsHandle(h); }
 	bool isEmpty(int) { return obj.empty(); }
+	void warp(unsigned k) { const unsigned target = 0xffffffffu - k; if(target > obj.verifGetCurrentCounter()) obj.verifSetCurrentCounter(target); }
 	void invoke(int, int arg) { obj(arg); }
 	template <typename F> void forEach(int, F && f) { obj.forEach(std::forward<F>(f)); }
 	template <typename F> bool forEachIf(int, F && f) { return obj.forEachIf(std::forward<F>(f)); }
@@ -82,6 +84,7 @@ struct DispObj
 	bool remove(int ev, const Handle & h) { return obj.removeListener(ev, h); }
 	bool owns(int ev, const Handle & h) { return obj.ownsHandle(ev, h); }
 	bool isEmpty(int ev) { return !obj.hasAnyListener(ev); }
+	void warp(unsigned) {}
 	void invoke(int ev, int arg) { obj.dispatch(ev, arg); }
 	template <typename F> void forEach(int ev, F && f) { obj.forEach(ev, std::forward<F>(f)); }
 	template <typename F> bool forEachIf(int ev, F && f) { return obj.forEachIf(ev, std::forward<F>(f)); }
@@ -367,6 +370,9 @@ struct Harness
 			initial.lists[e].push_back(cb);
 		}
 
+		// clock-jump fault: the concurrent additions of this run straddle the wrap of the 32-bit generation counter
+		if(plan.user(U_WARP) > 0) { obj->warp((unsigned)std::min(8, plan.user(U_WARP) - 1)); ++counters.warpedRuns; }
+
 		const int nTasks = std::min((int)plan.tasks.size(), (int)MAXT - 2);
 		for(int t = 0; t < nTasks; ++t) {
 			const OpList * ops = &plan.tasks[t];
@@ -555,6 +561,7 @@ void generate(uint64_t seed, Plan & plan)
 		prescript |= (r < 25 ? 1 : r < 35 ? 2 : 0) << (2 * cb);
 	}
 	plan.user(U_PRESCRIPT) = prescript;
+	plan.user(U_WARP) = (!disp && rng.chance(1, 5)) ? 1 + (int)rng.below(5) : 0;
 
 	int cbEvent[MAXCB];
 	for(int cb = 0; cb < pre; ++cb) cbEvent[cb] = cb % nEvents;
@@ -618,7 +625,7 @@ std::string describe(const Plan & plan)
 	static const char * objNames[] = { "CallbackList/SimMutex", "CallbackList/SpinLock", "EventDispatcher/map/SimMutex", "EventDispatcher/unordered_map/SimMutex", "EventDispatcher/map/SpinLock", "EventDispatcher/unordered_map/SpinLock" };
 	std::ostringstream o;
 	const int k = plan.user(U_OBJ);
-	o << (k >= 0 && k < OBJ_KINDS ? objNames[k] : "?") << " pre=" << plan.user(U_PRE) << " strat=" << plan.cfg[CFG_STRATEGY] << "/" << plan.cfg[CFG_DEPTH];
+	o << (k >= 0 && k < OBJ_KINDS ? objNames[k] : "?") << " pre=" << plan.user(U_PRE) << (plan.user(U_WARP) > 0 ? " wrap-in-" + std::to_string(plan.user(U_WARP) - 1) : std::string()) << " strat=" << plan.cfg[CFG_STRATEGY] << "/" << plan.cfg[CFG_DEPTH];
 	for(size_t t = 0; t < plan.tasks.size(); ++t) {
 		o << " | t" << t << ":";
 		for(size_t i = 0; i < plan.tasks[t].size(); ++i) {
@@ -640,7 +647,7 @@ void statsJson(std::string & out)
 	  << ",\"sim_ns\":" << s.totSimNs
 	  << ",\"probes\":{\"lin_histories_checked\":" << counters.linChecked << ",\"lin_ops\":" << counters.linOps << ",\"lin_search_nodes\":" << counters.linNodes
 	  << ",\"traversals_checked\":" << counters.travChecked << ",\"traversal_visits\":" << counters.travVisits
-	  << ",\"runs_with_overlap\":" << counters.overlapRuns << ",\"concurrent_removes_same_handle\":" << counters.removeRaces
+	  << ",\"runs_with_overlap\":" << counters.overlapRuns << ",\"runs_straddling_the_generation_wrap\":" << counters.warpedRuns << ",\"concurrent_removes_same_handle\":" << counters.removeRaces
 	  << ",\"insert_before_concurrently_removed\":" << counters.insertBeforeRemoved << ",\"drain_removals\":" << counters.drainRemovals
 	  << ",\"nested_ops_from_callbacks\":" << counters.nestedOps << ",\"lin_search_budget_exhausted\":" << counters.linBudgetExhausted << ",\"lin_histories_too_long_skipped\":" << counters.linSkippedTooLong
 	  << ",\"mutex_contended\":" << probes().mutexContended << ",\"spin_contended\":" << probes().spinContended << "}"
